@@ -14,7 +14,13 @@ vars == <<cfg, layout>>
 Admissible(v) == v = 1 \/ v % 2 = 0
 MeshSet == {m \in (1..MaxDevices) \X (1..MaxDevices) \X (1..MaxDevices) :
               m[1] * m[2] * m[3] <= MaxDevices /\ Admissible(m[2]) /\ Admissible(m[3])}
-Init == /\ cfg \in [mesh : MeshSet, M : Ms, K : Levels] /\ layout = <<>>
+(* the smallest resolution at which every x-shard holds resolved zonal wavenumbers and every y-shard
+   resolved total wavenumbers (with the default multiple 8 a small grid lives entirely on the first
+   shard and the other shards see only padding - both situations are exported) *)
+Max3(a, b, c) == IF a >= b /\ a >= c THEN a ELSE IF b >= c THEN b ELSE c
+SpanM(m) == Max3(5, 8 * (m[2] - 1) + 1, 8 * (m[3] - 1))
+Init == /\ \E m \in MeshSet : \E M \in Ms \cup {SpanM(m)} : \E K \in Levels : cfg = [mesh |-> m, M |-> M, K |-> K]
+        /\ layout = <<>>
 Parallel == cfg.mesh[1] > 1 \/ cfg.mesh[2] > 1 \/ cfg.mesh[3] > 1
 B == IF Parallel THEN 8 ELSE 1
 L == cfg.M + 1
@@ -37,9 +43,15 @@ GlobalM(i) == i \div 2
 PairsTogether == Built => /\ RowsPerShard % 2 = 0
                           /\ \A s \in 0..cfg.mesh[2] - 1 : \A i \in 0..RowsPerShard - 1 :
                                (RowsPerShard \div 2) * s + i \div 2 = GlobalM(s * RowsPerShard + i)
+ColsPerShard == layout.modal[2] \div cfg.mesh[3]
+(* at the spanning resolution no shard is pure padding *)
+EveryShardHoldsData == (Built /\ cfg.M = SpanM(cfg.mesh)) =>
+   /\ \A s \in 0..cfg.mesh[2] - 1 : s * RowsPerShard < 2 * cfg.M
+   /\ \A s \in 0..cfg.mesh[3] - 1 : s * ColsPerShard < L
 (* padding never hides resolved entries *)
 Covers == Built => layout.modal[1] >= 2 * cfg.M /\ layout.modal[2] >= L
                    /\ layout.nodal[1] >= I /\ layout.nodal[2] >= J
 Export == Built => PrintT(<<"CASE", ToJson([mesh |-> cfg.mesh, M |-> cfg.M, K |-> cfg.K, L |-> L, I |-> I, J |-> J,
-                                            modal |-> layout.modal, nodal |-> layout.nodal, zpad |-> layout.zpad])>>)
+                                            modal |-> layout.modal, nodal |-> layout.nodal, zpad |-> layout.zpad,
+                                            spans |-> (cfg.M = SpanM(cfg.mesh))])>>)
 =============================================================================
